@@ -719,3 +719,47 @@ Section Proofs.
       inversion H; subst. rewrite (IH s1 post s o2 S2). rewrite app_assoc. reflexivity.
   Qed.
 End Proofs.
+
+(* ---------------------------------------------------------------- M3 for writes: at most one callback *)
+Section WriteLife.
+  Variable retry : list N.
+
+  Theorem wr_life_callback_once_lemma : forall ins slot s o,
+    wr_life retry slot ins = Ok (s, o) -> length (filter is_wcb o) <= 1.
+  Proof.
+    induction ins as [|i r IH]; intros slot s o H; cbn [wr_life] in H.
+    - inversion H; subst. cbn. lia.
+    - destruct (wr_life_step retry slot i) as [[s1 o1]| | |] eqn:S1; try discriminate.
+      destruct (wr_life retry s1 r) as [[s2 o2]| | |] eqn:S2; try discriminate.
+      inversion H; subst. rewrite filter_app, app_length. specialize (IH s1 s o2 S2).
+      unfold wr_life_step in S1. destruct slot as [C|]; [|inversion S1; subst; cbn; lia].
+      destruct i as [a reg|]; [|inversion S1; subst; cbn; lia].
+      destruct (write_cb retry C a reg) as [[C2 act]| | |]; try discriminate.
+      destruct act; inversion S1; subst; cbn [filter is_wcb length]; try lia;
+        rewrite wr_life_none in S2; inversion S2; subst; cbn; lia.
+  Qed.
+
+  Lemma wr_life_armed_no_cb : forall ins slot C' o,
+    wr_life retry slot ins = Ok (Some C', o) -> filter is_wcb o = [].
+  Proof.
+    induction ins as [|i r IH]; intros slot C' o H; cbn [wr_life] in H.
+    - inversion H; subst. reflexivity.
+    - destruct (wr_life_step retry slot i) as [[s1 o1]| | |] eqn:S1; try discriminate.
+      destruct (wr_life retry s1 r) as [[s2 o2]| | |] eqn:S2; try discriminate.
+      inversion H; subst. rewrite filter_app, (IH s1 C' o2 S2), app_nil_r.
+      destruct s1 as [C1|]; [|rewrite wr_life_none in S2; inversion S2].
+      unfold wr_life_step in S1. destruct slot as [C|]; [|inversion S1].
+      destruct i as [a reg|]; [|inversion S1].
+      destruct (write_cb retry C a reg) as [[C2 act]| | |]; try discriminate.
+      destruct act; inversion S1; subst; reflexivity.
+  Qed.
+
+  (* a write cancelled while still registered never calls back, whatever follows *)
+  Theorem write_cancelled_never_calls_back_lemma : forall C pre post C' o,
+    wr_life retry (Some C) pre = Ok (Some C', o) ->
+    exists o', wr_life retry (Some C) (pre ++ WInCancel :: post) = Ok (None, o') /\ filter is_wcb o' = [].
+  Proof.
+    intros C pre post C' o H. eexists. split; [apply (write_cancel_silences_lemma retry pre _ post _ _ H)|].
+    rewrite filter_app, (wr_life_armed_no_cb pre (Some C) C' o H). reflexivity.
+  Qed.
+End WriteLife.
